@@ -15,25 +15,47 @@ def strip(L):
     return [l for l in L if not l.startswith("dump") and l != "spectree" and not l.startswith("nospace")]
 
 
+def geometry_history(ctx):
+    """hardfiles whose size sits on / next to a bitmap-page boundary (one page maps 127*32 = 4064 blocks; the root block holds
+    25 page pointers, each extension block 127 more): the in-memory tables are sized from the block count, so the last block
+    of the volume is the one an off-by-one would put outside them"""
+    rng = ctx.rng
+    flav = rng.choice(gen.FLAVOURS)
+    k = rng.choice([1, 1, 2, 3] if ctx.tier == "quick" else [1, 2, 3, 5, 25, 26])
+    n = 4064 * k + 2 + rng.choice([-1, 0, 1, 1, 2])
+    L = gen.dev_create("HF:%d" % n, flav) + ["mountdev 0", "mount 0 0", "free"]
+    for b in (n - 1, n - 2, n - 3, 4064 * k + 1, 4064 * k + 2):
+        if 2 <= b < n and b != n // 2:
+            L += ["isfree %d" % b, "setused %d" % b, "isfree %d" % b, "setfree %d" % b]
+    L += ["open 0 - %s w" % hexs(b"f"), "write 0 3 %d" % rng.choice([100, 5000, 40000]), "close 0", "mkdir - %s" % hexs(b"d"), "updbitmap", "free",
+          "umount", "umountdev", "mountdev 0", "mount 0 0", "free", "isfree %d" % (n - 1), "open 0 - %s r" % hexs(b"f"), "read 0 100", "close 0",
+          "rm - %s" % hexs(b"f"), "free", "umount", "umountdev"]
+    return L, 0, n, {"flavour": flav, "blocks": n, "pages": (n - 2 + 4063) // 4064}
+
+
 def run(ctx):
     proof = common.proof_status(ctx)
     rng = ctx.rng
     gens = []
+    for i in range(6 if ctx.tier == "quick" else 120):
+        gens.append(("bitmap-page-boundary-geometry", geometry_history))
     b1 = c01.builders(ctx)
-    for i in range(10 if ctx.tier == "quick" else 200):
+    for i in range(60 if ctx.tier == "quick" else 900):
         gens.append(("file-history", b1[i % len(b1)][1]))
-    for i in range(6 if ctx.tier == "quick" else 150):
+    for i in range(12 if ctx.tier == "quick" else 150):
         gens.append(("namespace-history", c02.ns_history))
-    for i in range(6 if ctx.tier == "quick" else 150):
+    for i in range(12 if ctx.tier == "quick" else 150):
         gens.append(("cache-history", c07.cache_history))
-    for i in range(4 if ctx.tier == "quick" else 80):
+    for i in range(10 if ctx.tier == "quick" else 80):
         gens.append(("forced-exhaustion", c08.forced_history))
     for i in range(2 if ctx.tier == "quick" else 30):
         gens.append(("real-exhaustion", c08.exhaustion_history))
     for i in range(3 if ctx.tier == "quick" else 40):
         gens.append(("rdb-partition", c03.part_history))
-    vg_budget = 3 if ctx.tier == "quick" else 40
+    vg_budget = {}      # per generator, so that every kind of history gets its share of memcheck runs
+    vg_each = 4 if ctx.tier == "quick" else 40
     have_vg = shutil.which("valgrind") is not None
+    jobs = []
     for gi, (label, fn) in enumerate(gens):
         L, first, nb, meta = fn(ctx)
         L = strip(L)
@@ -41,9 +63,32 @@ def run(ctx):
         if L[-1] != "umountdev":
             L += ["umount", "umountdev"]
         L += ["ledger"]
+        use_vg = False
+        if have_vg and vg_budget.get(label, 0) < vg_each and len(L) < 160 and meta.get("blocks", 0) < 5000:
+            vg_budget[label] = vg_budget.get(label, 0) + 1
+            use_vg = True
+        jobs.append((gi, label, L, meta, use_vg))
+
+    def one(job):
+        gi, label, L, meta, use_vg = job
         script = "\n".join(L) + "\n"
         rc, out, err, wd = common.run_script(ctx, script, variant="adfh-asan", timeout=600,
                                              env={"ASAN_OPTIONS": "detect_leaks=1:abort_on_error=0:exitcode=99", "LSAN_OPTIONS": "exitcode=98"})
+        rc2, out2, err2, wd2 = common.run_script(ctx, script, variant="adfh", timeout=600)
+        shutil.rmtree(wd, ignore_errors=True)
+        shutil.rmtree(wd2, ignore_errors=True)
+        vg = None
+        if use_vg:
+            d_ = os.path.join(ctx.work, "vg%d" % gi)
+            os.makedirs(d_, exist_ok=True)
+            sp = os.path.join(d_, "script")
+            open(sp, "w").write(script.replace("$W", d_))
+            r = subprocess.run(["valgrind", "-q", "--error-exitcode=97", "--track-origins=no", "--leak-check=no", ctx.bin("adfh-vg"), sp, d_],
+                               stdout=subprocess.PIPE, stderr=subprocess.PIPE, text=True, timeout=1200)
+            vg = (r.returncode, r.stderr)
+            shutil.rmtree(d_, ignore_errors=True)
+        return (rc, out, err, rc2, out2, vg)
+    for (gi, label, L, meta, use_vg), (rc, out, err, rc2, out2, vg) in zip(jobs, common.pmap(one, jobs)):
         ctx.count((label, hash(tuple(L))))
         ctx.bump("asan:" + label)
         inp = {"generator": label, "meta": meta, "script": L}
@@ -51,7 +96,6 @@ def run(ctx):
             what = [l for l in err.splitlines() if "ERROR" in l or "SUMMARY" in l][:3]
             ctx.fail("crash", "sanitizer report or crash on a valid history (exit %d)" % rc, inp, expected="clean run", actual={"last_output": out[-2:], "sanitizer": what})
         # ledger (plain build: the ASan build has its own allocator bookkeeping but the wrappers still run)
-        rc2, out2, err2, wd2 = common.run_script(ctx, script, variant="adfh", timeout=600)
         led = [l for l in out2 if " ok live=" in l]
         if rc2 != 0:
             ctx.fail("crash", "crash on a valid history (exit %d)" % rc2, inp, actual=out2[-2:])
@@ -60,24 +104,18 @@ def run(ctx):
             if int(d["live"]) != 0 or int(d["dfree"]) != 0:
                 ctx.fail("oracle", "allocation ledger not empty after close/unmount/closedev: %s live allocation(s), %s free(s) of memory not owned" % (d["live"], d["dfree"]), inp,
                          expected="live=0 dfree=0", actual=led[-1])
-        if have_vg and vg_budget > 0 and label in ("file-history", "namespace-history", "cache-history", "forced-exhaustion") and len(L) < 120:
-            vg_budget -= 1
-            d_ = os.path.join(ctx.work, "vg%d" % gi)
-            os.makedirs(d_, exist_ok=True)
-            sp = os.path.join(d_, "script")
-            open(sp, "w").write(script.replace("$W", d_))
-            r = subprocess.run(["valgrind", "-q", "--error-exitcode=97", "--track-origins=no", "--leak-check=no", ctx.bin("adfh-vg"), sp, d_],
-                               stdout=subprocess.PIPE, stderr=subprocess.PIPE, text=True, timeout=1200)
+        if vg is not None:
             ctx.bump("valgrind:" + label)
-            if r.returncode == 97:
-                first_err = [l for l in r.stderr.splitlines() if "uninitialised" in l or "Invalid" in l or " at 0x" in l or " by 0x" in l][:5]
+            if vg[0] == 97:
+                first_err = [l for l in vg[1].splitlines() if "uninitialised" in l or "Invalid" in l or " at 0x" in l or " by 0x" in l][:5]
                 ctx.fail("crash", "valgrind memcheck error on a valid history (use of uninitialised memory / invalid access)", inp, expected="no error", actual=first_err)
         if len(ctx.samples) < 3:
             ctx.sample({"generator": label, "meta": meta, "lines": len(L)})
         if len(ctx.failures) > 5:
             break
-    rule = ("valid histories from the file / namespace / directory-cache / exhaustion / partition generators (all flavours, incl. failing calls) under ASan(address,bounds)+LSan, "
-            "the malloc ledger after close+unmount+closedev, and valgrind memcheck on a few; distinct = distinct script")
+    rule = ("hardfiles of 4064k+2+{-1,0,1,2} blocks (last block of the volume = first/last bit of a bitmap page) with the last blocks queried, set and freed; valid histories from the file / namespace / directory-cache / exhaustion / partition generators (all flavours, incl. failing calls) under ASan(address,bounds)+LSan, "
+            "the malloc ledger after close+unmount+closedev, and valgrind memcheck on a few of each kind (the harness prints every field of every result the API returns, so a field left "
+            "uninitialised by the library is a memcheck error too); distinct = distinct script")
     return common.finish(ctx, proof, rule, level="exploration",
                          assumptions=["names of 1..30 bytes without '/' or ':', one writer per file (documented envelope)",
                                       "UBSan 'shift' reports of Long() (promoted uint16 shifted into the sign bit) are not part of the property: address,bounds only"])
